@@ -130,7 +130,8 @@ theorem ttl_le_remaining (sigValid : SigOracle) (k : Dnskey) (kp : Proof) (sig :
     (hnow : now < M) (hexp : sig.input.expiration < M)
     (h : verifyRrsetWithDnskey sigValid k kp sig keyName keyType records now = .ok (.secure, ttl)) :
     ∃ t first rest, ttl = some t ∧ records = first :: rest ∧
-      t ≤ (sig.input.expiration + M - now) % M ∧ t ≤ sig.input.originalTtl ∧ t ≤ first.ttl := by
+      t ≤ (sig.input.expiration + M - now) % M ∧ t ≤ sig.input.originalTtl ∧ t ≤ first.ttl ∧
+      t ≤ sig.input.expiration - now := by
   unfold verifyRrsetWithDnskey at h
   split at h
   · cases h
@@ -151,8 +152,9 @@ theorem ttl_le_remaining (sigValid : SigOracle) (k : Dnskey) (kp : Proof) (sig :
     · split at h
       · split at h
         · simp only [Except.ok.injEq, Prod.mk.injEq, true_and] at h
-          refine ⟨authenticatedTtl sig first now, first, rest, h.symm, rfl, ?_, ?_, ?_⟩
+          refine ⟨authenticatedTtl sig first now, first, rest, h.symm, rfl, ?_, ?_, ?_, ?_⟩
           · unfold authenticatedTtl M at *; omega
+          · unfold authenticatedTtl; omega
           · unfold authenticatedTtl; omega
           · unfold authenticatedTtl; omega
         · cases h
@@ -263,36 +265,41 @@ theorem fresh_secure {sigValid : SigOracle} {r : Request}
     exact keys_secure_implies hv
   · cases h
 
-/-! ### the validation cache: provenance of every verdict (holds of the code as it is) -/
+/-! ### the validation cache: provenance of every verdict (holds of the code as it is)
+
+The development is generic in what `get` does with a live entry (`serve`), so that it covers both
+the code as it is (`serveAsIs`) and the repaired cache of `Proofs/C06Fixed.lean` (`serveFixed`). -/
 
 /-- TTL of the first record (`cx.rrset.records.first()`) -/
 def firstTtl (r : Request) : Option Nat := r.records.head?.map (·.ttl)
 
-/-- a cache entry was put there by the fresh validation of some earlier request -/
+/-- a cache entry is the one `insert` created for the fresh validation of some earlier request -/
 def Provenance (sigValid : SigOracle) (cfg : CacheConfig) (past : List Request) (e : CacheEntry) : Prop :=
-  ∃ r ∈ past, e.key = r.ck ∧ e.verdict = freshVerdict sigValid r ∧
-    ∃ t, firstTtl r = some t ∧ e.expires = r.inst + cacheLifetime cfg e.verdict t
+  ∃ r ∈ past, ∃ t, firstTtl r = some t ∧ e = entryOf cfg r (freshVerdict sigValid r) t
 
 /-- what is known about one answered request: the verdict was computed for this very request, or it
-is the fresh verdict of an earlier request with the same cache key whose entry is still live on the
-monotonic clock -/
-def StepSound (sigValid : SigOracle) (cfg : CacheConfig) (past : List Request) (r : Request)
-    (v : Verdict) (fresh : Bool) : Prop :=
+is what `serve` makes of the entry created by the fresh validation of an *earlier* request with the
+same cache key, that entry being still live on the monotonic clock -/
+def StepSound (sigValid : SigOracle) (cfg : CacheConfig) (serve : CacheEntry → Request → Option Verdict)
+    (past : List Request) (r : Request) (v : Verdict) (fresh : Bool) : Prop :=
   (fresh = true ∧ v = freshVerdict sigValid r) ∨
-  (fresh = false ∧ ∃ r' ∈ past, r'.ck = r.ck ∧ v = freshVerdict sigValid r' ∧
-    ∃ t, firstTtl r' = some t ∧ r.inst < r'.inst + cacheLifetime cfg v t)
+  (fresh = false ∧ ∃ r' ∈ past, r'.ck = r.ck ∧
+    ∃ t, firstTtl r' = some t ∧
+      r.inst < r'.inst + cacheLifetime cfg (freshVerdict sigValid r') t ∧
+      serve (entryOf cfg r' (freshVerdict sigValid r') t) r = some v)
 
-theorem cacheGet_some {c : Cache} {key : CacheKey} {inst : Nat} {v : Verdict}
-    (h : cacheGet c key inst = some v) : ∃ e ∈ c, e.key = key ∧ e.verdict = v ∧ inst < e.expires := by
-  unfold cacheGet at h
+theorem cacheGetE_some {c : Cache} {key : CacheKey} {inst : Nat} {e : CacheEntry}
+    (h : cacheGetE c key inst = some e) : e ∈ c ∧ e.key = key ∧ inst < e.expires := by
+  unfold cacheGetE at h
   split at h
-  · rename_i e he
+  · rename_i e' he
     split at h
     · rename_i hlt
       simp only [Option.some.injEq] at h
+      subst h
       have hk := List.find?_some he
       simp only [beq_iff_eq] at hk
-      exact ⟨e, List.mem_of_find?_eq_some he, hk, h, hlt⟩
+      exact ⟨List.mem_of_find?_eq_some he, hk, hlt⟩
     · cases h
   · cases h
 
@@ -302,19 +309,26 @@ theorem provenance_mono {sigValid : SigOracle} {cfg : CacheConfig} {past : List 
   obtain ⟨r', hr', h'⟩ := h
   exact ⟨r', by simp [hr'], h'⟩
 
-theorem validate_inv (sigValid : SigOracle) (cfg : CacheConfig) (past : List Request) (c : Cache)
+theorem validate_inv (sigValid : SigOracle) (cfg : CacheConfig)
+    (serve : CacheEntry → Request → Option Verdict) (past : List Request) (c : Cache)
     (r : Request) (hinv : ∀ e ∈ c, Provenance sigValid cfg past e) :
-    (∀ e ∈ (validate sigValid cfg c r).1, Provenance sigValid cfg (past ++ [r]) e) ∧
-    StepSound sigValid cfg past r (validate sigValid cfg c r).2.1 (validate sigValid cfg c r).2.2 := by
-  unfold validate
-  cases hg : cacheGet c r.ck r.inst with
+    (∀ e ∈ (validateG sigValid cfg serve c r).1, Provenance sigValid cfg (past ++ [r]) e) ∧
+    StepSound sigValid cfg serve past r (validateG sigValid cfg serve c r).2.1
+      (validateG sigValid cfg serve c r).2.2 := by
+  unfold validateG
+  cases hg : (cacheGetE c r.ck r.inst).bind (fun e => serve e r) with
   | some v =>
     simp only
-    obtain ⟨e, he, hk, hv, hlt⟩ := cacheGet_some hg
     refine ⟨fun e' he' => provenance_mono r (hinv e' he'), Or.inr ⟨rfl, ?_⟩⟩
-    obtain ⟨r', hr', hk', hv', t, ht, hexp⟩ := hinv e he
-    refine ⟨r', hr', by rw [← hk', hk], by rw [← hv, hv'], t, ht, ?_⟩
-    rw [← hv, ← hexp]; exact hlt
+    cases hge : cacheGetE c r.ck r.inst with
+    | none => rw [hge] at hg; cases hg
+    | some e =>
+      rw [hge] at hg
+      simp only [Option.bind_some] at hg
+      obtain ⟨he, hk, hlt⟩ := cacheGetE_some hge
+      obtain ⟨r', hr', t, ht, hent⟩ := hinv e he
+      subst hent
+      exact ⟨r', hr', hk, t, ht, hlt, hg⟩
   | none =>
     simp only
     refine ⟨?_, Or.inl ⟨rfl, rfl⟩⟩
@@ -328,37 +342,45 @@ theorem validate_inv (sigValid : SigOracle) (cfg : CacheConfig) (past : List Req
       rw [hft] at he
       simp only [List.mem_cons, List.mem_filter] at he
       rcases he with rfl | he
-      · exact ⟨r, by simp, rfl, rfl, t, hft, rfl⟩
+      · exact ⟨r, by simp, t, hft, rfl⟩
       · exact provenance_mono r (hinv e he.1)
 
 /-- a history is sound from `past` on: every answer satisfies `StepSound` w.r.t. the requests
 before it -/
-def SoundFrom (sigValid : SigOracle) (cfg : CacheConfig) :
+def SoundFrom (sigValid : SigOracle) (cfg : CacheConfig) (serve : CacheEntry → Request → Option Verdict) :
     List Request → List Request → List (Verdict × Bool) → Prop
   | _, [], [] => True
   | past, r :: rs, (v, fresh) :: outs =>
-    StepSound sigValid cfg past r v fresh ∧ SoundFrom sigValid cfg (past ++ [r]) rs outs
+    StepSound sigValid cfg serve past r v fresh ∧ SoundFrom sigValid cfg serve (past ++ [r]) rs outs
   | _, _, _ => False
 
-theorem soundFrom_of_inv (sigValid : SigOracle) (cfg : CacheConfig) (past : List Request) (c : Cache)
+theorem soundFrom_of_inv (sigValid : SigOracle) (cfg : CacheConfig)
+    (serve : CacheEntry → Request → Option Verdict) (past : List Request) (c : Cache)
     (hist : List Request) (hinv : ∀ e ∈ c, Provenance sigValid cfg past e) :
-    SoundFrom sigValid cfg past hist (runHistory sigValid cfg c hist) := by
+    SoundFrom sigValid cfg serve past hist (runHistoryG sigValid cfg serve c hist) := by
   induction hist generalizing past c with
-  | nil => simp [runHistory, SoundFrom]
+  | nil => simp [runHistoryG, SoundFrom]
   | cons r rs ih =>
-    obtain ⟨h1, h2⟩ := validate_inv sigValid cfg past c r hinv
-    simp only [runHistory, SoundFrom]
+    obtain ⟨h1, h2⟩ := validate_inv sigValid cfg serve past c r hinv
+    simp only [runHistoryG, SoundFrom]
     exact ⟨h2, ih _ _ h1⟩
 
-/-- **History theorem, the part that holds of the code as it is (`cache_provenance`).**  For every
-history of validation requests (any clocks, any contents, any cache configuration), starting from an
-empty cache: every verdict handed out was either freshly computed for that very request at its own
-clock, or is the fresh verdict of an *earlier* request with the same cache key, served while
-`Instant::now()` is before that entry's expiry.  (No entry appears from nowhere, none is served past
-its lifetime, none is attributed to another key.) -/
+/-- **History theorem, the part that holds whatever `get` does with live entries
+(`cache_provenanceG`).**  For every history of validation requests (any clocks, any contents, any
+cache configuration), starting from an empty cache: every verdict handed out was either freshly
+computed for that very request at its own clock, or stems from the entry created by the fresh
+validation of an *earlier* request with the same cache key, served while `Instant::now()` is before
+that entry's expiry.  (No entry appears from nowhere, none is served past its lifetime, none is
+attributed to another key.) -/
+theorem cache_provenanceG (sigValid : SigOracle) (cfg : CacheConfig)
+    (serve : CacheEntry → Request → Option Verdict) (hist : List Request) :
+    SoundFrom sigValid cfg serve [] hist (runHistoryG sigValid cfg serve [] hist) :=
+  soundFrom_of_inv sigValid cfg serve [] [] hist (by simp)
+
+/-- **`cache_provenance`: the code as it is.** -/
 theorem cache_provenance (sigValid : SigOracle) (cfg : CacheConfig) (hist : List Request) :
-    SoundFrom sigValid cfg [] hist (runHistory sigValid cfg [] hist) :=
-  soundFrom_of_inv sigValid cfg [] [] hist (by simp)
+    SoundFrom sigValid cfg serveAsIs [] hist (runHistory sigValid cfg [] hist) :=
+  cache_provenanceG sigValid cfg serveAsIs hist
 
 /-! ### the history theorem about Secure verdicts -/
 
@@ -378,9 +400,12 @@ def LifetimeCapped (sigValid : SigOracle) (cfg : CacheConfig) (r : Request) : Pr
   ∀ t, firstTtl r = some t → (freshVerdict sigValid r).proof = .secure →
     cacheLifetime cfg (freshVerdict sigValid r) t ≤ r.rrsig.input.expiration - r.now
 
-/-- `r'` was answered before `r`; if they share the cache key then: they present the same signed
-content (the key is faithful), and the validator's wall clock and the monotonic clock of the cache
-advanced by the same amount in between -/
+/-- `r'` was answered before `r`; if they share the cache key then they present the same signed
+content (the key is faithful) -/
+def KeyFaithful (r' r : Request) : Prop := r'.ck = r.ck → SameContent r' r
+
+/-- `KeyFaithful`, and the validator's wall clock and the monotonic clock of the cache advanced by
+the same amount between the two requests -/
 def PairOK (r' r : Request) : Prop :=
   r'.ck = r.ck → SameContent r' r ∧ r'.now ≤ r.now ∧ r'.inst ≤ r.inst ∧
     r.now - r'.now = r.inst - r'.inst
@@ -391,10 +416,11 @@ def ValidatedAt (sigValid : SigOracle) (r : Request) (t : Nat) : Prop :=
   ∃ k ttl, verifyRrsetWithDnskey sigValid k .secure r.rrsig r.keyName r.keyType r.records t
     = .ok (.secure, ttl)
 
-/-- what the property demands of a Secure verdict handed out for request `r` -/
+/-- what the property demands of a Secure verdict handed out for request `r`: its content passed the
+checks at some validator time `t₀`, and the validator's clock is (still) inside the window -/
 def SecureOK (sigValid : SigOracle) (r : Request) : Prop :=
   InWindow r.now r.rrsig.input.inception r.rrsig.input.expiration ∧
-  ∃ t0, t0 ≤ r.now ∧ ValidatedAt sigValid r t0
+  ∃ t0, t0 < M ∧ ValidatedAt sigValid r t0
 
 theorem window_extends {now' now inc exp life : Nat} (hnow : now < M) (hinc : inc < M) (hexp : exp < M)
     (hwf : SerialLe inc exp) (hw : InWindow now' inc exp) (hle : now' ≤ now)
@@ -402,20 +428,21 @@ theorem window_extends {now' now inc exp life : Nat} (hnow : now < M) (hinc : in
   unfold InWindow SerialLe M HALF at *
   omega
 
-theorem step_secure_partial (sigValid : SigOracle) (cfg : CacheConfig) (past : List Request)
-    (r : Request) (v : Verdict) (fresh : Bool)
-    (hs : StepSound sigValid cfg past r v fresh) (hsec : v.proof = .secure) (hb : Bounds r)
+theorem step_secure_partial (sigValid : SigOracle) (cfg : CacheConfig)
+    (past : List Request) (r : Request) (v : Verdict) (fresh : Bool)
+    (hs : StepSound sigValid cfg serveAsIs past r v fresh) (hsec : v.proof = .secure) (hb : Bounds r)
     (hpair : ∀ r' ∈ past, PairOK r' r ∧ LifetimeCapped sigValid cfg r') :
     SecureOK sigValid r := by
   obtain ⟨hnow, hinc, hexp, hwf⟩ := hb
-  rcases hs with ⟨_, hv⟩ | ⟨_, r', hr', hck, hv, t, ht, hlive⟩
+  rcases hs with ⟨_, hv⟩ | ⟨_, r', hr', hck, t, ht, hlive, hv⟩
   · subst hv
     obtain ⟨k, _, hk⟩ := fresh_secure hsec
     have hc := secure_implies_checks sigValid k .secure r.rrsig r.keyName r.keyType r.records r.now _
       hnow hinc hexp hk
-    exact ⟨hc.2.2.2.2.2.2.2.2.2.2.2.1, r.now, Nat.le_refl _, k, _, hk⟩
+    exact ⟨hc.2.2.2.2.2.2.2.2.2.2.2.1, r.now, hnow, k, _, hk⟩
   · obtain ⟨hp, hcapd⟩ := hpair r' hr'
     obtain ⟨⟨hsig, hkn, hkt, hrec⟩, hle, hile, hsync⟩ := hp hck
+    simp only [serveAsIs, entryOf, Option.some.injEq] at hv
     subst hv
     obtain ⟨k, _, hk⟩ := fresh_secure hsec
     rw [hsig, hkn, hkt, hrec] at hk
@@ -424,22 +451,28 @@ theorem step_secure_partial (sigValid : SigOracle) (cfg : CacheConfig) (past : L
       hnow' hinc hexp hk
     have hcap := hcapd t ht hsec
     rw [hsig] at hcap
-    refine ⟨?_, r'.now, hle, k, _, hk⟩
+    refine ⟨?_, r'.now, hnow', k, _, hk⟩
     exact window_extends hnow hinc hexp hwf hc.2.2.2.2.2.2.2.2.2.2.2.1 hle (by omega) hcap
 
-/-- every Secure verdict of the history satisfies `SecureOK` -/
-def SecureSoundFrom (sigValid : SigOracle) : List Request → List (Verdict × Bool) → Prop
+/-- every Secure verdict of the history satisfies `Q request verdict` -/
+def AllSecure (Q : Request → Verdict → Prop) : List Request → List (Verdict × Bool) → Prop
   | [], [] => True
-  | r :: rs, (v, _) :: outs =>
-    (v.proof = .secure → SecureOK sigValid r) ∧ SecureSoundFrom sigValid rs outs
+  | r :: rs, (v, _) :: outs => (v.proof = .secure → Q r v) ∧ AllSecure Q rs outs
   | _, _ => False
 
-theorem secureSound_of_sound (sigValid : SigOracle) (cfg : CacheConfig) (past hist : List Request)
-    (outs : List (Verdict × Bool)) (hs : SoundFrom sigValid cfg past hist outs)
-    (hb : ∀ r ∈ hist, Bounds r ∧ LifetimeCapped sigValid cfg r)
-    (hpast : ∀ r' ∈ past, LifetimeCapped sigValid cfg r' ∧ ∀ r ∈ hist, PairOK r' r)
-    (hpw : hist.Pairwise PairOK) :
-    SecureSoundFrom sigValid hist outs := by
+/-- lifts a per-step lemma about Secure verdicts to whole histories; `P` relates an earlier request
+to a later one, `C` is a condition on single requests -/
+theorem allSecure_of_sound (sigValid : SigOracle) (cfg : CacheConfig)
+    (serve : CacheEntry → Request → Option Verdict) (Q : Request → Verdict → Prop)
+    (P : Request → Request → Prop) (C : Request → Prop)
+    (hstep : ∀ past r v fresh, StepSound sigValid cfg serve past r v fresh → v.proof = .secure →
+      Bounds r → (∀ r' ∈ past, P r' r ∧ C r') → Q r v)
+    (past hist : List Request)
+    (outs : List (Verdict × Bool)) (hs : SoundFrom sigValid cfg serve past hist outs)
+    (hb : ∀ r ∈ hist, Bounds r ∧ C r)
+    (hpast : ∀ r' ∈ past, C r' ∧ ∀ r ∈ hist, P r' r)
+    (hpw : hist.Pairwise P) :
+    AllSecure Q hist outs := by
   induction hist generalizing past outs with
   | nil =>
     cases outs with
@@ -452,7 +485,7 @@ theorem secureSound_of_sound (sigValid : SigOracle) (cfg : CacheConfig) (past hi
       obtain ⟨v, fresh⟩ := o
       simp only [SoundFrom] at hs
       rw [List.pairwise_cons] at hpw
-      refine ⟨fun hsec => step_secure_partial sigValid cfg past r v fresh hs.1 hsec (hb r (by simp)).1
+      refine ⟨fun hsec => hstep past r v fresh hs.1 hsec (hb r (by simp)).1
         (fun r' hr' => ⟨(hpast r' hr').2 r (by simp), (hpast r' hr').1⟩), ?_⟩
       apply ih (past ++ [r]) outs hs.2 (fun x hx => hb x (by simp [hx]))
       · intro r' hr'
@@ -465,29 +498,34 @@ theorem secureSound_of_sound (sigValid : SigOracle) (cfg : CacheConfig) (past hi
 
 /-
 FULL STATEMENT (what the property says: "never yields Secure — also not via a previously cached
-verdict"; the current code does **not** satisfy it, see `counterexample_cache_outlives_signature`
-and `counterexample_cache_key_case`, both confirmed on the real `DnssecDnsHandle::send`):
+verdict", for all validate / advance-clock / re-validate histories; the current code does **not**
+satisfy it, see `counterexample_cache_outlives_signature` and `counterexample_cache_key_case`, both
+confirmed on the real `DnssecDnsHandle::send`):
 
   theorem cache_sound (sigValid cfg) (hist : List Request)
-      (hb : ∀ r ∈ hist, Bounds r) (hsync : hist.Pairwise ClocksSynced) :
-      SecureSoundFrom sigValid hist (runHistory sigValid cfg [] hist)
+      (hb : ∀ r ∈ hist, Bounds r) (hkey : hist.Pairwise KeyFaithful) :
+      AllSecure (fun r _ => SecureOK sigValid r) hist (runHistory sigValid cfg [] hist)
 
-i.e. without `LifetimeCapped` and with `SameContent` a consequence of equal cache keys.
+i.e. without `LifetimeCapped` and without any assumption on how the clocks move.
+(`Proofs/C06Fixed.lean` proves exactly this, plus the TTL clause, for the repaired cache.)
 -/
 
-/-- **History theorem, partial (`cache_sound_partial`).**  For every history of validation requests
-answered from an initially empty cache — any interleaving of validate / advance-clock / re-validate,
-any cache configuration — in which (i) requests with equal cache keys present the same signed content
-and the two clocks advance together (`PairOK`), and (ii) every Secure entry's lifetime is at most the
-remaining lifetime of its signature (`LifetimeCapped`): every Secure verdict handed out, fresh or
-cached, is for content that passed `verify_rrset_with_dnskey` (all of `secure_implies_checks`) at a
-time `t₀ ≤ now`, and the validator's clock `now` is still inside `[inception, expiration]`. -/
+/-- **History theorem, partial (`cache_sound_partial`), the code as it is.**  For every history of
+validation requests answered from an initially empty cache — any interleaving of validate /
+advance-clock / re-validate, any cache configuration — in which (i) requests with equal cache keys
+present the same signed content and the two clocks advance together (`PairOK`), and (ii) every Secure
+entry's lifetime is at most the remaining lifetime of its signature (`LifetimeCapped`): every Secure
+verdict handed out, fresh or cached, is for content that passed `verify_rrset_with_dnskey` (all of
+`secure_implies_checks`) at some validator time, and the validator's clock `now` is still inside
+`[inception, expiration]`. -/
 theorem cache_sound_partial (sigValid : SigOracle) (cfg : CacheConfig) (hist : List Request)
     (hb : ∀ r ∈ hist, Bounds r)
     (hcap : ∀ r ∈ hist, LifetimeCapped sigValid cfg r)
     (hpw : hist.Pairwise PairOK) :
-    SecureSoundFrom sigValid hist (runHistory sigValid cfg [] hist) :=
-  secureSound_of_sound sigValid cfg [] hist _ (cache_provenance sigValid cfg hist)
+    AllSecure (fun r _ => SecureOK sigValid r) hist (runHistory sigValid cfg [] hist) :=
+  allSecure_of_sound sigValid cfg serveAsIs _ PairOK (LifetimeCapped sigValid cfg)
+    (fun past r v fresh hs hsec hb hp => step_secure_partial sigValid cfg past r v fresh hs hsec hb hp)
+    [] hist _ (cache_provenance sigValid cfg hist)
     (fun r hr => ⟨hb r hr, hcap r hr⟩) (by simp) hpw
 
 /-! ### concrete values: non-vacuity and the counter-examples (replays of the findings) -/
